@@ -2,6 +2,7 @@
 # Runs every claimed check (quick by default) against /repo's working tree and
 # leaves the evidence files it rewrote in evidence/. Usage: ./tools_run_all.sh [quick|thorough] [seed]
 cd "$(dirname "$0")"
+mkdir -p out
 TIER=${1:-quick}
 SEED=${2:-0}
 rc=0
